@@ -104,6 +104,12 @@ def get_class(cfg):
         elif name == "x2":
             self._log.append(("any:x2", old, new))
 
+    def x3_changed(self, old, new):
+        self._log.append(("x3:changed", old, new))
+
+    def x3_fired(self, old, new):
+        self._log.append(("x3:fired", old, new))
+
     def _rec(self, mech, old, new):
         self._log.append((mech, old, new))
         if mech in self._raising:
@@ -114,6 +120,10 @@ def get_class(cfg):
         # one definition object, two classes: the second class must see the comparison mode it was declared with
         type("C02_FirstUser", (HasTraits,), {"q": tr})
     name = "C02_%s_%s_%s_%s_%s_%s" % key
+    if cfg["shape"] in ("plain", "wild"):
+        # static handlers, in both spellings, for a name that objects are GIVEN at run time (add_trait("x3", ...))
+        ns["_x3_changed"] = x3_changed
+        ns["_x3_fired"] = x3_fired
     if cfg["shape"] == "plain":
         ns["_anytrait_changed"] = anytrait
         ns[magic] = static
@@ -321,8 +331,19 @@ class World(object):
         expect = (["any:x2"] + [m + ":x2" for m in ("anydyn", "anydyn2") if m in self.regs]) if self.cfg["shape"] == "wild" else []
         if sorted(mech for mech, _, _ in obj._log if ":" in mech) != sorted(expect):
             stray += 10
+        # a trait given to the object at run time: the class's static handlers for that name, in both spellings
+        # (_x3_changed, _x3_fired), hear of every change exactly once
+        added3 = 1
+        if self.cfg["shape"] in ("plain", "wild"):
+            if "x3" not in obj._instance_traits():
+                from traits.api import Any
+                obj.add_trait("x3", Any())
+            obj._log.clear()
+            obj.x3 = ("x3", self.n2)
+            got = sorted(mech for mech, _, _ in obj._log if mech.startswith("x3:"))
+            added3 = 1 if got == ["x3:changed", "x3:fired"] else 0
         obj._log.clear()
-        return {"regsafter": regsafter, "stray": stray, "twin": twin, "cfg": self.cfg, "raising": sorted(obj._raising), "op": op, "v": v, "pre": pre, "post": self.stored(),
+        return {"regsafter": regsafter, "stray": stray, "twin": twin, "added3": added3, "cfg": self.cfg, "raising": sorted(obj._raising), "op": op, "v": v, "pre": pre, "post": self.stored(),
                 "exc": exc, "ret": ret, "calls": calls, "regs": regs}
 
 
